@@ -527,8 +527,10 @@ func routeFamily(base []*V, thorough bool) []*V {
 		switch d.K {
 		case "Arr":
 			switch {
-			case nArr < 6 || thorough:
+			case nArr < 6 || (thorough && nArr < 24):
 				pick = rs
+			case thorough:
+				pick = []string{rs[nArr%len(rs)], rs[(nArr+3)%len(rs)]}
 			case nArr%3 == 0:
 				pick = []string{rs[(nArr/3)%len(rs)]}
 			}
@@ -547,7 +549,7 @@ func routeFamily(base []*V, thorough bool) []*V {
 			} else {
 				pick = []string{rs[nHash1%len(rs)]}
 				if thorough {
-					pick = rs
+					pick = append(pick, rs[(nHash1+7)%len(rs)], rs[(nHash1+13)%len(rs)], rs[(nHash1+19)%len(rs)])
 				}
 				nHash1++
 			}
